@@ -108,14 +108,28 @@ func (e *engine) scenario(kind string) {
 	case "impostor":
 		// Y answers at the address we were told X is at; afterwards the address stays connected to Y
 		check("dial.exec req=2 atts=a:3,f,f", dialOnce(ctx, a, x.id, addrY, 1200*time.Millisecond, idx), "exec.retrying", "impostor", x.id)
-		// the impostor's link must not be counted as a link to X
+		// the impostor's link must not be counted as a link to X: no link to X exists at this point, so the
+		// controller reports none for X, every link it reports for Y is a link to Y, and a request for a link
+		// to X is NOT satisfied (700 ms, while the link with the impostor is up)
 		mon := ""
-		for _, l := range a.tpc.GetPeerLinks(x.id) {
-			if l.GetRemotePeer() != x.id {
-				mon = "GetPeerLinks(X) contains a link to another peer"
+		if ls := a.tpc.GetPeerLinks(x.id); len(ls) != 0 {
+			mon = fmt.Sprintf("after an impostor answered, GetPeerLinks(X) reports %d link(s) although no link to X was ever established (remote peer of the first: peer %d)", len(ls), idx[ls[0].GetRemotePeer()])
+		}
+		for _, l := range a.tpc.GetPeerLinks(y.id) {
+			if l.GetRemotePeer() != y.id {
+				mon = "GetPeerLinks(Y) contains a link to another peer"
 			}
 		}
 		e.rep.Compare("impostor-links", "x", "x", "impostor.tables", "dial.tables", mon)
+		mon = ""
+		ictx, icancel := context.WithTimeout(ctx, 700*time.Millisecond)
+		iml, irel, ierr := link.EstablishLinkWithPeerEx(ictx, a.tb.Bus, "", x.id, false)
+		icancel()
+		if ierr == nil {
+			mon = fmt.Sprintf("EstablishLinkWithPeer(X) was satisfied (with a link to peer %d) although only the impostor has answered and no link to X exists", idx[iml.GetRemotePeer()])
+			irel()
+		}
+		e.rep.Compare("impostor-establish", "x", "x", "impostor.establish", "dial.establish", mon)
 		// recovery: X is reachable at its own address
 		check("dial.exec req=2 atts=a:2", dialOnce(ctx, a, x.id, addrX, 5*time.Second, idx), "exec.link", "recovery", x.id)
 		// and a request for a link to X yields a link to X
@@ -146,7 +160,7 @@ func (e *engine) scenario(kind string) {
 
 func (e *engine) run() {
 	e.rep.Rule = "real in-process QUIC/TLS transports A, X, Y on separate buses: dial X at X's address (honest), at Y's address (impostor answers), at an unreachable address, concurrent dials of X and Y at Y's address, then recovery (dial + EstablishLinkWithPeer for X); model attempts: answered-by / failed / fatal sequences; distinct = scenario kind"
-	e.rep.Require("exec.link", "exec.retrying", "impostor.tables", "recovery.establish")
+	e.rep.Require("exec.link", "exec.retrying", "impostor.tables", "impostor.establish", "recovery.establish", "ref.budget.link", "ref.budget.err", "ref.budget.retrying")
 	kinds := []string{"honest", "impostor", "unreachable", "impostor-then-honest-same-call"}
 	for r := 0; r < e.a.Scale; r++ {
 		for _, k := range kinds {
@@ -189,6 +203,29 @@ func (e *engine) run() {
 		}
 		op := fmt.Sprintf("dial.exec req=%d atts=%s", req, as)
 		e.rep.Compare(op, e.m.Query(op), res, "ref."+strings.SplitN(res, " ", 2)[0], "dial.ref", "")
+		// the same attempts with a backoff that gives up after `budget` failed attempts (max_elapsed_time):
+		// direct reference = Dialer.Execute's loop restated
+		budget := e.rng.Intn(4)
+		bres, left := "retrying", budget
+	loop:
+		for _, at := range atts {
+			switch {
+			case at == "F":
+				bres = "err fatal=true"
+				break loop
+			case strings.HasPrefix(at, "a:") && (req == 0 || at == fmt.Sprintf("a:%d", req)):
+				bres = "link " + at[2:]
+				break loop
+			default:
+				if left == 0 {
+					bres = "err fatal=false"
+					break loop
+				}
+				left--
+			}
+		}
+		bop := fmt.Sprintf("dial.exec req=%d atts=%s budget=%d", req, as, budget)
+		e.rep.Compare(bop, e.m.Query(bop), bres, "ref.budget."+strings.SplitN(bres, " ", 2)[0], "dial.ref", "")
 	}
 }
 
